@@ -150,6 +150,8 @@ mut('c11-pub-second-frame', 'C11', 'src/pub.rs', "&& sub_filter.as_slice() == &m
 mut('c11-pub-cancel-wrong', 'C11', 'src/pub.rs', "                        entry.subscriptions.remove(index);", "                        entry.subscriptions.remove(0);", expect='any-nonzero', note='CANCEL removes the oldest subscription instead of the equal one')
 mut('c11-pub-sub-dedup', 'C11', 'src/pub.rs', "                    entry.subscriptions.push(Vec::from(&data[1..]));", "                    if entry.subscriptions.is_empty() {\n                        entry.subscriptions.push(Vec::from(&data[1..]));\n                    }", note='only the first subscription of a peer is recorded')
 mut('c11-xpub-cancel-keeps', 'C11', 'src/xpub.rs', "                        entry.subscriptions.remove(index);", "                        let _ = index;", expect='any-nonzero', note='CANCEL is ignored (the lemma hint is anchored on the removed statement: undecided)')
+mut('c11-xpub-recv-no-bookkeeping', 'C11', 'src/xpub.rs', "                    self.backend\n                        .message_received(&peer_id, Message::Message(message.clone()));\n", "", note='XPUB hands the subscription to the application but does not record it')
+mut('c11-xpub-recv-not-verbatim', 'C11', 'src/xpub.rs', "                    return Ok(message);\n                }\n                Some((_peer_id, Ok(_msg)))", "                    let mut message = message;\n                    message.pop_front();\n                    return Ok(message);\n                }\n                Some((_peer_id, Ok(_msg)))", expect='any-nonzero', note='the application gets the subscription message without its first frame')
 mut('h-c11-swap-remove', 'C11', 'src/pub.rs', "                        entry.subscriptions.remove(index);", "                        entry.subscriptions.swap_remove(index);", expect='no-alarm', note='HARMLESS: the order of subscriptions is not observable (the contract is over the multiset)')
 mut('h-c11-insert-front', 'C11', 'src/pub.rs', "                    entry.subscriptions.push(Vec::from(&data[1..]));", "                    entry.subscriptions.insert(0, Vec::from(&data[1..]));", expect='no-alarm', note='HARMLESS: order not observable')
 mut('h-c11-rename', 'C11', 'src/pub.rs', "sub_filter", "prefix", expect='no-alarm', note='HARMLESS rename (the loop hints name the loop variable: undecided at worst)')
